@@ -8,6 +8,7 @@ import (
 	"sort"
 	"strings"
 	"sync"
+	"time"
 
 	"github.com/tonistiigi/fsutil"
 	"github.com/tonistiigi/fsutil/types"
@@ -24,14 +25,20 @@ const c19Sentinel = "SENTINEL-outside-dest"
 
 // kind 1901 — one metadata-only transfer with the REAL fsutil.Send / fsutil.Receive.
 //
-// input: (srcView priorView ((path sel)...) selDefault cap merge)
+// input: (srcView priorView ((path sel)...) selDefault cap merge [rwk])
 //
 //	the selector is the finite table (exact path -> bool) with a default for every other path;
+//	rwk (absent = 0): what the selector WRITES into the live *types.Stat it is handed before it
+//	returns (c19Rewrite; the FilterFunc signature invites it): 0 nothing, 1 uid/gid/mtime normalised
+//	on every entry, 2 chmod go-rwx on what it selects, 3 normalised on selected entries only,
+//	4 on rejected entries only, 5 = 1 + 2, 6 = 1 + the Path field overwritten;
 //	priorView is materialised into dest before the transfer (it may hold an entry named
 //	.fsutil-metadata: file, directory, or symlink "../sentinel" to a file outside dest).
 //
 // output: (send_err recv_err hung announced lkind lok listing reclens lsize reqs fwd dest_raw sentinel_ok)
 //
+//	hung       the real Send/Receive did not both return within the watchdog time (10 s): an output
+//	           value, judged specification-false by the glue in every case
 //	announced  STAT sequence the sender put on the wire (packet log), in order
 //	lkind      what dest/.fsutil-metadata is afterwards: 0 absent, 1 regular, 2 symlink, 3 dir, 4 other
 //	lok        the file split exactly into 4-byte-LE-length-prefixed records that all unmarshal
@@ -58,6 +65,10 @@ func run1901(in Sx) (out Sx) {
 	def := in.L[3].IsTrue()
 	capacity := in.L[4].Int()
 	merge := in.L[5].IsTrue()
+	rwk := 0
+	if len(in.L) > 6 {
+		rwk = in.L[6].Int()
+	}
 
 	work := WorkDir("c19-")
 	defer os.RemoveAll(work)
@@ -93,13 +104,15 @@ func run1901(in Sx) (out Sx) {
 		return true
 	}
 	selector := func(p string, st *types.Stat) bool {
-		if v, ok := table[p]; ok {
-			return v
+		v, ok := table[p]
+		if !ok {
+			v = def
 		}
-		return def
+		c19Rewrite(rwk, v, st)
+		return v
 	}
 	res := RunTransfer(TransferCfg{Src: &MemFS{Roots: src}, Dest: dest, Merge: merge, StreamCap: capacity,
-		MetadataOnly: selector, Filter: filter})
+		MetadataOnly: selector, Filter: filter, Timeout: c19Watchdog})
 	if os.Getenv("VERIF_DEBUG") != "" {
 		fmt.Fprintf(os.Stderr, "c19: send=%v recv=%v hung=%v\n", res.SendErr, res.RecvErr, res.Hung)
 	}
@@ -181,6 +194,40 @@ func run1901(in Sx) (out Sx) {
 	}
 	return L(errClass(res.SendErr), errClass(res.RecvErr), Bool(res.Hung), L(announced...), NI(lkind), Bool(lok),
 		L(listing...), L(reclens...), NI(lsize), L(reqs...), L(fw...), RawListSx(kept), Bool(sentinelOK))
+}
+
+// c19Watchdog bounds one real Send/Receive pair (RunTransfer then tears the stream down and
+// reports Hung).
+const c19Watchdog = 10 * time.Second
+
+// c19Rewrite is the side effect of the generated selectors on the stat they are handed
+// (Model/MetaOnly.v rw_of); dec is the decision they are about to return.
+func c19Rewrite(k int, dec bool, st *types.Stat) {
+	norm := func() { st.Uid, st.Gid, st.ModTime = 12, 34, 981173106000000000 }
+	switch k {
+	case 1:
+		norm()
+	case 2:
+		if dec {
+			st.Mode &^= 077
+		}
+	case 3:
+		if dec {
+			norm()
+		}
+	case 4:
+		if !dec {
+			norm()
+		}
+	case 5:
+		norm()
+		if dec {
+			st.Mode &^= 077
+		}
+	case 6:
+		norm()
+		st.Path = "x"
+	}
 }
 
 // kind 1902 — the unexported chunked buffer (buffer.alloc / WriteTo) through the verif hook:
@@ -498,7 +545,7 @@ func c19ListingBytes(stats []*types.Stat) int {
 	return n
 }
 
-func c19Emit(g *Gen, src, prior []*MNode, sel c19Sel, capacity int, merge bool, cls string) {
+func c19Emit(g *Gen, src, prior []*MNode, sel c19Sel, capacity int, merge bool, rwk int, cls string) {
 	stats := c19Walk(src)
 	closed := c19LinkClosed(sel, stats)
 	if !closed {
@@ -516,7 +563,12 @@ func c19Emit(g *Gen, src, prior []*MNode, sel c19Sel, capacity int, merge bool, 
 			nunsel++
 		}
 	}
-	in := L(ViewSx(src), ViewSx(prior), sel.Sx(), Bool(sel.def), NI(capacity), Bool(merge))
+	in := L(ViewSx(src), ViewSx(prior), sel.Sx(), Bool(sel.def), NI(capacity), Bool(merge), NI(rwk))
+	if rwk != 0 {
+		cls += fmt.Sprintf("+selector-writes-%d", rwk)
+		k := fmt.Sprintf("selector_writes_%d_cases", rwk)
+		g.extra[k] = g.extraInt(k) + 1
+	}
 	nontriv := closed && nsel >= 1 && nunsel >= 1 && len(stats) >= 3
 	out := kinds[0x1901](in)
 	if merge && len(out.L) >= 13 && out.L[1].IsTrue() && out.L[4].Int() == 3 {
@@ -531,6 +583,14 @@ func c19Emit(g *Gen, src, prior []*MNode, sel c19Sel, capacity int, merge bool, 
 		k = "listing_chunks_7plus"
 	}
 	g.extra[k] = g.extraInt(k) + 1
+}
+
+// c19GenRw: 60 % pure predicates, otherwise one of the writing selector kinds.
+func c19GenRw(r *Rng) int {
+	if r.Chance(60) {
+		return 0
+	}
+	return 1 + r.Intn(6)
 }
 
 func (g *Gen) extraInt(k string) int {
@@ -585,7 +645,7 @@ func genC19(g *Gen) {
 		} else if nested {
 			cls += "+src-nested-listing-name"
 		}
-		c19Emit(g, src, prior, sel, Pick(r, caps), merge, "sel-"+sel.name+"/"+cls)
+		c19Emit(g, src, prior, sel, Pick(r, caps), merge, c19GenRw(r), "sel-"+sel.name+"/"+cls)
 	}
 
 	// 2. listings spanning 1..6 buffer chunks (many entries, long names); few entries selected
@@ -610,7 +670,7 @@ func genC19(g *Gen) {
 		if i%3 == 1 {
 			prior = c19WithListing(r, nil, 1)
 		}
-		c19Emit(g, src, prior, sel, Pick(r, caps), false, fmt.Sprintf("big-listing-%d-chunks/sel-%s", chunks, sel.name))
+		c19Emit(g, src, prior, sel, Pick(r, caps), false, (i%4)%3, fmt.Sprintf("big-listing-%d-chunks/sel-%s", chunks, sel.name))
 	}
 
 	// 3. single stats larger than one chunk (long xattr value; the key has no valid namespace,
@@ -645,7 +705,7 @@ func genC19(g *Gen) {
 		stats = c19Walk(src)
 		sel := c19GenSel(r, stats)
 		c19CloseLinks(&sel, stats)
-		c19Emit(g, src, nil, sel, Pick(r, caps), false, "big-stat/sel-"+sel.name)
+		c19Emit(g, src, nil, sel, Pick(r, caps), false, c19GenRw(r), "big-stat/sel-"+sel.name)
 	}
 
 	// 4. buffer kind: record size sequences around the chunk boundary
